@@ -16,8 +16,8 @@ META = {
             'requirement to exactly the new one and gives no name two values (full strength after fix d4dd80ce). '
             'The abstract pom writer has Write\'s error outcome (malformed Name), is the identity on no updates, and on the literal fragment (all versions literal, keys without placeholders, unique keys, any number of updates on different keys) '
             'succeeds, re-reads as substituted and applies every update (no silent success). Beyond that fragment the pom.xml writer is covered by correspondence plus the '
-            'requirement-level oracle (re-read = substitute), not by a general theorem; five classes where the unchanged writer leaves the '
-            'property are recorded as known findings with witnesses (comment inside <version>, dependencies-vs-dependencyManagement addressing, shared property, a property defined only in another profile, '
+            'requirement-level oracle (re-read = substitute), not by a general theorem; four classes where the unchanged writer leaves the '
+            'property are recorded as known findings with witnesses (comment inside <version>, dependencies-vs-dependencyManagement addressing, shared property, '
             'a property of the pom inside a dependency\'s coordinates); keys written through the project\'s own coordinates (${project.groupId}) are resolved since the ResolvedKey fix (modelled: coordDict / interpKey; decided witness); three '
             'former ones (white space in key elements, undefined property, repeated placeholder) were repaired and their witnesses are regression cases, as is the dependencyManagement element without <dependencies> (entries for keys the pom does not hold were dropped). Token level: writeString (the rewrite applied to every dependency / parent / properties element) is modelled on token '
             'lists and is the identity whenever each addressed child holds exactly its value (comment-in-<version> counterexample proved); the element dispatch above it '
@@ -72,7 +72,7 @@ def run(ctx):
                 'pp case = (s1, s2) from literal/placeholder pools; thorough adds 155 templates x every s2 of length <=5 over {1 . - x}. '
                 'ws case = one dependency / parent / properties element (comments, CDATA, entities, attributes, white space, PIs inside or beside the addressed child) through the real writeString with the element\'s own version, a new one, or property values. '
                 'pch case = multi-module layout with 1-3 local parents, intermediate poms that inherit groupId / version, default and explicit relativePath, literal-version entries at every level (every third layout with ${project.groupId} / ${pom.groupId} group ids, the child having its own group id or the chain\'s), updates addressed to each, written to the same path or to another directory (parents must appear next to the output); '
-                '(every third layout: versions through a property of the declaring pom, entries in profiles of the manifest; the new version of every update must be the text of some element of the written files); '
+                '(every third layout: versions through a property defined by the declaring pom, by one of its ancestors, or overridden by a pom below it; entries in profiles of the manifest and of its parents; the new version of every update must be the text of some element of the written files); '
                 'pom case = abstract pom (every fifth with 1-2 pluginManagement plugins — half of them without <groupId> — holding 1-2 dependencies of their own; 1-4 dependencies, every third with a second declaration of one groupId:artifactId under another key (test-jar / classifier) and another version, dependencyManagement, 0-2 profiles, properties used as whole/prefix/suffix/two placeholders, ${project.version}; every sixth with group / artifact ids written through ${project.groupId} / ${pom.groupId} / ${project.version}, every twentieth through a property of the pom) rendered with '
                 'comments / one-line forms / namespaces, x update subsets drawn from the real Read (all subsets when <=4 in thorough) + the no-update case (plain, comment or CDATA in <version>); '
                 'every fourth pom without managed entries still has the element: <dependencyManagement/>, <dependencyManagement></dependencyManagement>, white space or a comment inside, or an empty / self-closing <dependencies> inside, and is then also written with updates for keys it does not hold (they must be added there); '
